@@ -476,4 +476,31 @@ example : goFmtG true (natDigits 1234567) 7 = "-1.234567e+06".toList := by decid
 example : goFmtG false (natDigits 5) (-323) = "5e-324".toList := by decide +kernel
 example : goFmtG false (natDigits 12) 5 = "12000".toList := by decide +kernel
 
+
+/-- **C17_goG_layout_fixpoint** (completeness of the layout tie `isGoLayout` the judge applies to every rendering): the
+`'g'`/shortest layout of digits without trailing zero is recognised as the layout of its own digits — the test raises no
+false alarm on any text `formatDigits` can produce from `ryuFtoaShortest` digits (soundness is by definition: an accepted
+text IS `goFmtG` of the digits read from it). -/
+theorem C17_goG_layout_fixpoint (neg : Bool) (m : Nat) (dp : Int) (hm10 : m % 10 ≠ 0) (hdp : dp.natAbs ≤ 900)
+    (hnd : (natDigits m).length ≤ 900) : isGoLayout (goFmtG neg (natDigits m) dp) = true := by
+  have hd : AllDigits (natDigits m) := fun c hc => (natDigits_digits m c hc).1
+  obtain ⟨l, hl, hneg, hval, hsc, hshape⟩ := goFmtG_parse neg (natDigits m) dp hd (natDigits_ne_nil m) hdp hnd
+  rw [digitsVal_natDigits] at hshape
+  have hnorm : normLit l = ⟨neg, m, dp - ((natDigits m).length : Int)⟩ := by
+    rcases hshape with rfl | ⟨h1, h2, rfl⟩
+    · simp only [normLit, normLit_go_nz 400 m _ hm10]
+    · simp only [normLit, normLit_go_pow (dp.toNat - (natDigits m).length) 400 m 0 hm10 (by omega)]
+      congr 1; omega
+  have hm0 : m ≠ 0 := by rintro rfl; simp at hm10
+  unfold isGoLayout
+  rw [hl]
+  simp only [digitsOfLit, hnorm, hm0, if_false, hneg]
+  have : dp - ((natDigits m).length : Int) + ((natDigits m).length : Int) = dp := by omega
+  rw [this]
+  simp
+
+example : isGoLayout "1.7976931348623157e+308".toList = true := by decide +kernel
+example : isGoLayout "1e+6".toList = false := by decide +kernel
+example : isGoLayout "0.10".toList = false := by decide +kernel
+
 end GeomV.C17
